@@ -19,7 +19,6 @@ import signal
 import sys
 import threading
 import time
-from concurrent.futures import ProcessPoolExecutor
 
 import vlib
 from vlib import Violation
@@ -360,12 +359,15 @@ def extract_seqs(op, res, n):
         return None
 
 
-def run_case(case):
-    """-> JSON-serialisable observation of one run"""
+def run_case(case, progress=None):
+    """-> JSON-serialisable observation of one run. `progress(tag, payload)` streams what happens to the supervising
+    process (S = phase, P = an operation is about to start, R = its record), so that a hard overrun can be attributed."""
+    progress = progress or (lambda tag, payload: None)
     run = Run(case)
     trace = []
     t_case = time.monotonic()
     try:
+        progress("S", {"phase": "construct"})
         run.start()
         if run.free:
             time.sleep(FREE_PAUSE)
@@ -380,6 +382,7 @@ def run_case(case):
             rec["blocked_before"] = [run.is_blocked(j) for j in range(run.n)]
             rec["alive_before"] = [p.is_alive() for p in run.procs]
             rec["raised_before"] = [run.ctl.get(j, F_RAISED) for j in range(run.n)]
+            progress("P", rec)
             nev = len(run.events)
             if op[0] == "release":
                 for j in range(run.n):
@@ -430,6 +433,7 @@ def run_case(case):
             rec["dropped"] = [p is None for p in run.vec.parent_pipes]
             rec["blocked_after"] = [run.is_blocked(j) for j in range(run.n)]
             trace.append(rec)
+            progress("R", rec)
             if rec["out"] == "Hang":
                 hung = True
                 break
@@ -438,14 +442,204 @@ def run_case(case):
         import traceback
         obs = {"trace": trace, "hung": False, "harness_error": f"{type(e).__name__}: {e}\n{traceback.format_exc()[-1200:]}"}
     finally:
+        progress("S", {"phase": "teardown"})
         left = run.teardown()
     obs["orphans"] = left
     obs["wall"] = round(time.monotonic() - t_case, 3)
     return obs
 
 
-def _run_case_json(s):
-    return run_case(json.loads(s))
+# ------------------------------------------------------------------------------------------------
+# hard outer limit: every real-process case runs in a child process (own session / process group) that is
+# supervised from OUTSIDE; an overrun is a Hang of the operation in flight, the whole group is killed
+# ------------------------------------------------------------------------------------------------
+MAGIC = "@@C13 "
+CASE_LIMIT = float(os.environ.get("C13_CASE_LIMIT", "30"))      # seconds of wall clock per case (normal: < 4 s)
+START_LIMIT = 180.0                                              # seconds for the runner to import the implementation
+MAX_HARD = 8                                                     # hard overruns after which the remaining cases are skipped
+BUDGET = {"quick": 420.0, "thorough": 2400.0}                    # seconds for all cases of a tier
+
+
+def runner_main(path):
+    """child side: run the cases of the file one after the other, streaming progress on stdout"""
+    cases = json.load(open(path))
+    out = sys.stdout
+
+    def emit(tag, idx, payload=None):
+        out.write(MAGIC + tag + " " + str(idx) + " " + (json.dumps(payload, default=str) if payload is not None else "null") + "\n")
+        out.flush()
+    import agilerl.vector.pz_async_vec_env  # noqa: F401 — the slow import happens before the per-case clock starts
+    emit("READY", -1)
+    for idx, case in cases:
+        emit("B", idx)
+        obs = run_case(case, progress=lambda tag, payload, _i=idx: emit(tag, _i, payload))
+        emit("E", idx, obs)
+    return 0
+
+
+def hard_obs(case, recs, pre, phase, limit):
+    """observation of a case whose runner had to be killed: the operation in flight is a Hang"""
+    n = len(case["plans"])
+    obs = {"trace": list(recs), "hung": True, "harness_error": None, "orphans": [], "wall": limit, "hard_timeout": True,
+           "hard_phase": phase}
+    if phase == "op" and pre is not None:
+        r = dict(pre)
+        r.update({"out": "Hang", "exc": "HardTimeout", "code": None, "seqs": None, "dt": limit, "hard": True, "events": [],
+                  "state": pre["state_before"], "closed": pre["closed_before"], "alive": pre["alive_before"],
+                  "raised": pre["raised_before"], "dropped": [False] * n, "blocked_after": pre["blocked_before"],
+                  "sent": [0] * n, "msg": f"no answer within {limit} s: the supervising process killed the whole process group"})
+        obs["trace"].append(r)
+    return obs
+
+
+def group_members(pgids):
+    """live (non-zombie) processes whose process group is one of pgids — the `ps` check, done through /proc"""
+    out = []
+    for name in os.listdir("/proc"):
+        if not name.isdigit():
+            continue
+        try:
+            st = open(f"/proc/{name}/stat").read()
+            rest = st[st.rindex(")") + 2:].split()
+            if rest[0] != "Z" and int(rest[2]) in pgids:
+                out.append((int(name), int(rest[2])))
+        except (OSError, ValueError, IndexError):
+            continue
+    return out
+
+
+class Sandbox:
+    def __init__(self, budget):
+        self.t_end = time.monotonic() + budget
+        self.hard = 0
+        self.lock = threading.Lock()
+        self.pgids = []
+        self.notes = []
+
+    def run_shard(self, shard, results, tag):
+        """shard: list of (idx, case). Fills results[idx]."""
+        import select
+        import subprocess
+        todo = list(shard)
+        d = vlib.BUILD / ("C13" + vlib.ALT_TAG)
+        d.mkdir(parents=True, exist_ok=True)
+        attempt = 0
+        while todo:
+            if time.monotonic() > self.t_end or self.hard >= MAX_HARD:
+                why = "wall-clock budget of the tier used up" if time.monotonic() > self.t_end else f"{self.hard} hard overruns"
+                for idx, _c in todo:
+                    results[idx] = {"trace": [], "hung": False, "orphans": [], "harness_error": f"case not run: {why}"}
+                return
+            attempt += 1
+            f = d / f"runner_{tag}_{os.getpid()}_{attempt}.json"
+            f.write_text(json.dumps(todo))
+            proc = subprocess.Popen([sys.executable, "-W", "ignore", os.path.abspath(__file__), "--runner", str(f)],
+                                    stdout=subprocess.PIPE, stderr=subprocess.DEVNULL, stdin=subprocess.DEVNULL,
+                                    start_new_session=True)
+            with self.lock:
+                self.pgids.append(proc.pid)
+            fd = proc.stdout.fileno()
+            buf = b""
+            cur, recs, pre, phase = None, [], None, "start"
+            deadline = time.monotonic() + START_LIMIT
+            cases = dict(todo)
+            done = set()
+            overrun = False
+            eof = False
+            while not eof:
+                left = min(deadline, self.t_end + 5) - time.monotonic()
+                if left <= 0:
+                    overrun = True
+                    break
+                rl, _, _ = select.select([fd], [], [], min(left, 1.0))
+                if not rl:
+                    continue
+                chunk = os.read(fd, 1 << 16)
+                if not chunk:
+                    eof = True
+                    break
+                buf += chunk
+                while b"\n" in buf:
+                    line, buf = buf.split(b"\n", 1)
+                    line = line.decode("utf-8", "replace")
+                    if not line.startswith(MAGIC):
+                        continue
+                    tg, idx, payload = line[len(MAGIC):].split(" ", 2)
+                    idx = int(idx)
+                    if tg == "READY":
+                        deadline = time.monotonic() + CASE_LIMIT
+                    elif tg == "B":
+                        cur, recs, pre, phase = idx, [], None, "construct"
+                        deadline = time.monotonic() + CASE_LIMIT
+                    elif tg == "S":
+                        phase = json.loads(payload)["phase"]
+                    elif tg == "P":
+                        pre, phase = json.loads(payload), "op"
+                    elif tg == "R":
+                        recs.append(json.loads(payload)); pre, phase = None, "between"
+                    elif tg == "E":
+                        results[idx] = json.loads(payload)
+                        done.add(idx)
+                        cur, phase = None, "idle"
+                        deadline = time.monotonic() + CASE_LIMIT
+            # whatever happened: nothing of that process group may survive
+            try:
+                os.killpg(proc.pid, signal.SIGKILL)
+            except (ProcessLookupError, PermissionError):
+                pass
+            try:
+                proc.wait(10)
+            except Exception:
+                pass
+            proc.stdout.close()
+            try:
+                f.unlink()
+            except OSError:
+                pass
+            todo = [(i, c) for i, c in todo if i not in done]
+            if overrun and cur is not None:
+                with self.lock:
+                    self.hard += 1
+                results[cur] = hard_obs(cases[cur], recs, pre, phase, CASE_LIMIT)
+                todo = [(i, c) for i, c in todo if i != cur]
+            elif overrun:          # the runner never got as far as a case (import of the implementation blocked)
+                with self.lock:
+                    self.hard += 1
+                for i, _c in todo:
+                    results[i] = {"trace": [], "hung": False, "orphans": [],
+                                  "harness_error": f"runner did not start a case within its limit (phase {phase})"}
+                return
+            elif todo and cur is not None and cur not in done:
+                # the runner died in the middle of a case (e.g. a SIGKILL that hit the wrong process): fail closed on it
+                results[cur] = {"trace": recs, "hung": False, "orphans": [],
+                                "harness_error": f"runner exited (code {proc.returncode}) during phase {phase}"}
+                todo = [(i, c) for i, c in todo if i != cur]
+            elif todo and attempt > 3 + len(shard):
+                for i, _c in todo:
+                    results[i] = {"trace": [], "hung": False, "orphans": [], "harness_error": "runner keeps exiting early"}
+                return
+
+    def run(self, cases, jobs):
+        results = {}
+        idx_cases = list(enumerate(cases))
+        shards = [idx_cases[k::jobs] for k in range(jobs)]
+        ths = [threading.Thread(target=self.run_shard, args=(sh, results, k), daemon=True) for k, sh in enumerate(shards) if sh]
+        for t in ths:
+            t.start()
+        for t in ths:
+            t.join()
+        survivors = []
+        for attempt in range(20):                 # killed processes may take a moment to disappear (zombies do not count)
+            survivors = group_members(set(self.pgids))
+            if not survivors:
+                break
+            for pid, pg in survivors:
+                try:
+                    os.kill(pid, signal.SIGKILL)
+                except (ProcessLookupError, PermissionError):
+                    pass
+            time.sleep(0.1)
+        return [results.get(i) for i in range(len(cases))], survivors
 
 
 # ------------------------------------------------------------------------------------------------
@@ -643,6 +837,30 @@ class C13(vlib.Driver):
         rng.shuffle(fam_e)
         for plans, ops in fam_e[: (24 if quick else len(fam_e))]:
             cases.append({"plans": plans, "ops": ops, "fam": "free", "mode": "free"})
+        # (H) a worker dies with a call pending and without having answered — EVERY victim index (first, middle, last),
+        #     2 and 3 workers, default start method: the matching wait must raise promptly, then close()
+        for n in (2, 3):
+            for w in range(n):
+                for ki, kind in enumerate(KINDS):
+                    for fin in (False, True):
+                        cl = closes[(w + ki + int(fin)) % 3]
+                        # the victim is busy (asleep) in the pending command when the harness SIGKILLs it
+                        plans = [[["normal"]] for _ in range(n)]
+                        plans[w] = [["normal"], ["sleep"]]
+                        cases.append({"plans": plans, "fam": "kill-pending",
+                                      "ops": [["async", "reset"], ["wait", "reset", False], ["async", kind], ["kill", w],
+                                              ["wait", kind, fin], ["close"] + cl]})
+                        # ... or kills itself inside the pending command
+                        plans = [[["normal"]] for _ in range(n)]
+                        plans[w] = [["normal"], ["die"]]
+                        cases.append({"plans": plans, "fam": "kill-pending",
+                                      "ops": [["async", "reset"], ["wait", "reset", False], ["async", kind],
+                                              ["wait", kind, fin], ["close"] + cl]})
+                # free-running (no proxies at all): victim still computing (3 s) when it is killed
+                plans = [[] for _ in range(n)]
+                plans[w] = [["delay", 3.0]]
+                cases.append({"plans": plans, "fam": "kill-pending", "mode": "free",
+                              "ops": [["async", KINDS[(n + w) % 3]], ["kill", w], ["wait", KINDS[(n + w) % 3], False], ["close", False, False]]})
         # (G) staggered readiness in pipe order (free-running, real delays): worker answers after d_i seconds; with the
         #     shared deadline a wait/close with timeout T gives up at T as soon as max d_i > T, however the others are staggered
         T = STAG_T
@@ -664,7 +882,7 @@ class C13(vlib.Driver):
                           "mode": "free", "stag": ds})
         for c in cases:
             c["ops"] = self.prune(c["ops"])
-        self.prefetch(cases)
+        self.prefetch(list(self.corpus()) + cases, tier)
         return cases
 
     @staticmethod
@@ -683,7 +901,7 @@ class C13(vlib.Driver):
         return out
 
     # ---------- implementation
-    def prefetch(self, cases):
+    def prefetch(self, cases, tier="quick"):
         todo = {}
         for c in cases:
             k = ckey(c)
@@ -692,21 +910,30 @@ class C13(vlib.Driver):
         if not todo:
             return
         keys = list(todo)
-        try:
-            with ProcessPoolExecutor(max_workers=int(os.environ.get("C13_JOBS", "4"))) as ex:
-                for k, obs in zip(keys, ex.map(_run_case_json, keys, chunksize=4)):
-                    self.cache[k] = obs
-        except Exception as e:  # a broken pool must not break the check: the remaining cases run inline
-            self.notes = list(getattr(self, "notes", [])) + [f"parallel prefetch failed ({type(e).__name__}: {e}); cases run inline"]
+        sb = Sandbox(BUDGET.get(tier, BUDGET["quick"]))
+        obs, survivors = sb.run([todo[k] for k in keys], max(1, min(int(os.environ.get("C13_JOBS", "3")), len(keys))))
+        for k, o in zip(keys, obs):
+            self.cache[k] = o if o is not None else {"trace": [], "hung": False, "orphans": [], "harness_error": "case lost by the sandbox"}
+        if sb.hard:
+            self.notes = list(getattr(self, "notes", [])) + [f"{sb.hard} case(s) overran the hard wall-clock limit of {CASE_LIMIT} s and were killed from outside (outcome Hang)"]
+        if survivors:
+            self.survivors = list(getattr(self, "survivors", [])) + survivors
 
     def run_impl(self, case):
         k = ckey(case)
         obs = self.cache.pop(k, None)
         if obs is None:
-            obs = run_case(case)
+            self.prefetch([case])
+            obs = self.cache.pop(k)
         if obs.get("harness_error"):
             raise RuntimeError(obs["harness_error"])
         return obs
+
+    def extra_static(self):
+        sv = getattr(self, "survivors", [])
+        if sv:
+            return [Violation("no-orphans", "orphan-processes", f"process groups {sv} still had members after their runner was stopped", None, None, found_input=False)]
+        return []
 
     # ---------- model term
     def coq_term(self, case, obs):
@@ -751,6 +978,13 @@ class C13(vlib.Driver):
         free = case.get("mode") == "free"
         if obs["orphans"]:
             out.append(Violation("no-orphans", "orphan-processes", f"worker processes survived the teardown: {obs['orphans']}"))
+        if obs.get("hard_phase") in ("construct", "start"):
+            out.append(Violation("no-hang", "hang:constructor", f"the environment could not be constructed within {CASE_LIMIT} s "
+                                 "(the supervising process killed the run)"))
+        elif obs.get("hard_phase") in ("teardown", "between", "idle"):
+            out.append(Violation("no-hang", f"hang:{obs.get('hard_phase')}", f"the run did not finish within {CASE_LIMIT} s after its last "
+                                 "operation (the supervising process killed the whole process group)"))
+        gone_before = False     # a wait on the pending call already failed because a worker is gone (half-consumed call)
         clean = True            # no timeout / dead worker / failed call so far
         killed = False
         pending_expect = None
@@ -812,8 +1046,13 @@ class C13(vlib.Driver):
                 if k == "close":
                     out.append(Violation("close-total", "close:hang", f"{where}: close() did not return within {GUARD}s"
                                          f" (state {sb}, alive before {r['alive_before']})"))
-                elif all(r["alive_before"]) and all(r["alive"]):
-                    out.append(Violation("no-hang", f"hang:{k}", f"{where}: call did not return although every worker is alive"))
+                elif not (k == "wait" and gone_before):
+                    # (a SECOND wait on a call that already failed half-way may block: outside the property)
+                    dead = [j for j in range(n) if not r["alive_before"][j]]
+                    out.append(Violation("no-hang", f"hang:{k}" + (":dead-worker" if dead else ""),
+                                         f"{where}: the call did not return" + (f" (hard limit {CASE_LIMIT} s, killed from outside)" if r.get("hard") else "")
+                                         + (f"; worker(s) {dead} had died — their death must surface promptly as EOFError/ConnectionError (or TimeoutError)" if dead
+                                            else " although every worker is alive")))
                 break
             if k == "close":
                 bad = []
@@ -891,6 +1130,10 @@ class C13(vlib.Driver):
                     out.append(Violation("legal-call", f"legal-call-state:{k}", f"{where}: state `{r['state']}` after a successful {op[1]}_async"))
                 elif k in ("wait", "setattr") and r["out"] == "Ok" and r["state"] != "default":
                     out.append(Violation("legal-call", f"legal-call-state:{k}", f"{where}: state `{r['state']}` after a successful call"))
+            if k == "wait" and r["out"] == "Gone":
+                gone_before = True
+            if r["state"] == "default":
+                gone_before = False
             if r["out"] != "Ok":
                 clean = False
             if not others_alive:              # a worker died without raising (killed / died by itself)
@@ -936,4 +1179,6 @@ class C13(vlib.Driver):
 
 
 if __name__ == "__main__":
+    if len(sys.argv) >= 3 and sys.argv[1] == "--runner":
+        sys.exit(runner_main(sys.argv[2]))
     sys.exit(vlib.run_check(C13()))
